@@ -672,11 +672,20 @@ class G:
             else:
                 row["dop"] = self.simple_int_dop(32)
             rows.append(row)
+        real_rows = list(rows)
+        if self.opts.get("table_empty_row", True) and self.chance(25):
+            # a row that references neither a structure nor a DOP (it cannot be encoded, but its key can arrive)
+            used_keys = [r["key"] for r in rows]
+            cand = [kv for kv in ([0, 1, 2, 255] if ktype == "int" else ["ZZ", "Z0"] if ktype == "str" else [b"\xfe\xfe", b"\x00\x00"])
+                    if kv not in used_keys]
+            if cand:
+                rows.append({"name": "row_empty", "id": self.nid("tr"), "key": cand[0], "st": None, "dop": None})
+                self.features.add("table-empty-row")
         table = {"k": "table", "id": self.nid("tab"), "keydop": kdop, "rows": rows}
         kname = self.nid("tk")
         tk = {"pk": "tablekey", "name": kname, "id": self.nid("tkid"), "pos": None, "bit": 0, "table": table, "row": None}
         ts = {"pk": "tablestruct", "name": self.nid("ts"), "pos": None, "key": kname, "snref": self.chance(40)}
-        row = self.pick(rows)
+        row = self.pick(real_rows)
         if self.opts.get("static_table_row", True) and self.chance(30):
             tk["row"] = row["name"]
             self.features.add("static-table-row")
@@ -938,7 +947,8 @@ class G:
             self.features.add("eopf")
             if n >= 2:
                 self.features.add("field>=2")
-            return {"k": "eopf", "id": self.nid("eo"), "st": s, "min": None, "max": None}, vals, None
+            # ("isz": size of the items, all of them static; a hint for checks, not part of the description)
+            return {"k": "eopf", "id": self.nid("eo"), "st": s, "min": None, "max": None, "isz": size}, vals, None
         if k == "mux":
             kbits = self.pick([8, 8, 16, 4])
             kbit = self.d(st.integers(0, 4)) if kbits == 4 else 0
@@ -1034,7 +1044,8 @@ class G:
             elif p["pk"] == "tablestruct":
                 tk = [q for q in s["params"] if q["pk"] == "tablekey" and q["name"] == p["key"]][0]
                 rows = tk["table"]["rows"]
-                row = [r for r in rows if r["name"] == tk["row"]][0] if tk.get("row") else self.pick(rows)
+                row = [r for r in rows if r["name"] == tk["row"]][0] if tk.get("row") else \
+                    self.pick([r for r in rows if r["st"] is not None or r["dop"] is not None])
                 content = self.values_for_struct(row["st"]) if row["st"] is not None else self.simple_value(row["dop"])
                 out[p["name"]] = [row["name"], content]
         # a LENGTH-KEY may also be given explicitly (it then must agree with the value that uses it); in field
